@@ -19,10 +19,11 @@ import (
 	v3 "github.com/deadsy/sdfx/vec/v3"
 	"verifharness/exprgen"
 	. "verifharness/kit"
+	"verifharness/sdfgen"
 	"verifharness/shapes"
 )
 
-func main() { Main("C03", check, exprgen.Gen) }
+func main() { Main("C03", check, exprgen.Gen, sdfgen.Gen) }
 
 const imp = "From Sdfx Require Import Sdf.C03Corr.\nOpen Scope float_scope."
 
